@@ -163,7 +163,7 @@ func (m *Manager) Put(key, value []byte) error {
 		}
 		seqNum, err := currentWAL.Append(wal.OpTypePut, key, value)
 		if err != nil {
-			if err != wal.ErrWALRotating {
+			if !m.isRotationError(err) {
 				m.stats.TrackError("wal_append_error")
 				return fmt.Errorf("failed to append to WAL: %w", err)
 			}
@@ -262,7 +262,7 @@ func (m *Manager) Delete(key []byte) error {
 		}
 		seqNum, err := currentWAL.Append(wal.OpTypeDelete, key, nil)
 		if err != nil {
-			if err != wal.ErrWALRotating {
+			if !m.isRotationError(err) {
 				m.stats.TrackError("wal_append_error")
 				return fmt.Errorf("failed to append to WAL: %w", err)
 			}
@@ -382,7 +382,7 @@ func (m *Manager) ApplyBatch(entries []*wal.Entry) error {
 		}
 		startSeqNum, err := currentWAL.AppendBatch(entries)
 		if err != nil {
-			if err != wal.ErrWALRotating {
+			if !m.isRotationError(err) {
 				m.stats.TrackError("wal_append_batch_error")
 				return fmt.Errorf("failed to append batch to WAL: %w", err)
 			}
@@ -1022,12 +1022,21 @@ func (m *Manager) recoverFromWAL() error {
 	return nil
 }
 
+// isRotationError reports whether an append failed only because the WAL it
+// was sent to is being (or has just been) replaced by a rotation. A WAL that
+// was fetched right before the swap is already closed by the time the append
+// reaches it; as long as the storage itself is open this is as transient as
+// ErrWALRotating and the operation can be retried on the new WAL.
+func (m *Manager) isRotationError(err error) bool {
+	return err == wal.ErrWALRotating || (err == wal.ErrWALClosed && !m.closed.Load())
+}
+
 // RetryOnWALRotating retries operations with ErrWALRotating
 func (m *Manager) RetryOnWALRotating(operation func() error) error {
 	maxRetries := 3
 	for attempts := 0; attempts < maxRetries; attempts++ {
 		err := operation()
-		if err != wal.ErrWALRotating {
+		if !m.isRotationError(err) {
 			// Either success or a different error
 			return err
 		}
